@@ -62,8 +62,10 @@ def register(claim, na):
 
     W_NOTE = ("The real scheduler, tokens, locks, launcher, script builder and job preparation run unmodified on a virtual asyncio loop with "
               "greenlet actors; modelled (and trusted within their conformance checks): job processes (behaviour table of TaskRunner), POSIX record "
-              "locks, inotify delivery, process death. Bounds: deviation bound per scenario (reported), <=4 jobs, <=2 scheduler processes, <=2 tokens; "
-              "loop callbacks atomic between scheduling points.")
+              "locks, inotify delivery, process death. A deviation is another actor at a scheduling point or a long preemption (the default actor is "
+              "descheduled until nothing else can run); default policies: FIFO (non-preemptive), LIFO, jobs-first, static priorities by actor kind and "
+              "by process. Bounds: deviation bound per scenario (reported), <=4 jobs, <=2 scheduler processes, <=2 tokens, <=2 user threads; "
+              "loop callbacks atomic between scheduling points (file, lock and thread-lock operations are scheduling points in fine-grained scenarios).")
     W_TECH = "stateless deviation-bounded exhaustive exploration of schedules of the real scheduler under a controlled scheduler (virtual loop + greenlet actors)"
     claim("C04", "W", "model_checking", W_TECH,
           "Every DAG on <=3 nodes in every topological submission order with every edge realised by each of 11 embedding kinds (rotated), diamonds on 4 "
@@ -73,12 +75,14 @@ def register(claim, na):
           W_NOTE, "DESIGN.md 2.2, 3/C04")
     claim("C05", "W", "model_checking", W_TECH,
           "Submission histories (duplicates at every position, second experiment with the success marker present, re-submission after failure), two "
-          "nested experiments and two simulated scheduler processes submitting the same job with fine-grained scheduling points; all schedules within "
-          "the bound; oracles on every execution: first output returned, one registry entry, body intervals never overlap, no body after success, no "
+          "nested experiments, two user threads submitting identical configurations to one experiment, and two simulated scheduler processes "
+          "submitting the same job with fine-grained scheduling points; all schedules within the bound; two real TaskRunner processes of one job "
+          "directory interleaved at every line (pair exploration); oracles on every execution: first output returned, one registry entry, body intervals never overlap, no body after success, no "
           "launch when the marker existed at submission.",
           W_NOTE, "DESIGN.md 3/C05")
     claim("C06", "W", "model_checking", W_TECH,
-          "Token workloads, DAGs with failing subsets and submission histories under all schedules within the bound from three default policies; every "
+          "Token workloads, DAGs with failing subsets, submission histories, job.wait()/experiment.wait() scripts and jobs taken back from another "
+          "scheduler (whose process dies at every point) under all schedules within the bound from three default policies; every "
           "assignment to Job.state is logged (finality), final states are compared with exit codes, job.wait() values, unfinishedJobs, quiescent hangs "
           "and the position of the experiment's exit relative to the last final state are checked on every execution.",
           W_NOTE, "DESIGN.md 3/C06")
@@ -88,7 +92,7 @@ def register(claim, na):
           W_NOTE, "DESIGN.md 3/C07")
     claim("C08", "W", "model_checking", W_TECH,
           "Seven (capacity; requests) workloads, failing holder, chain/fork under a token, two tokens, file and process tokens, two simulated processes "
-          "sharing the token directory (fine-grained points): at every launch and every token-file creation of every execution the held amount must "
+          "sharing the token directory (fine-grained points, 17 default policies incl. process priorities, long preemptions): at every launch and every token-file creation of every execution the held amount must "
           "not exceed the capacity.",
           W_NOTE, "DESIGN.md 3/C08")
     claim("C09", "W", "model_checking", W_TECH,
